@@ -43,7 +43,9 @@ TraceNext ==
                       (Strip(e.compdb.argv, NinjaOnlyFlags) = Strip(e.make.argv, NinjaOnlyFlags) /\ e.compdb.cwd = e.make.cwd),
                     "CompdbEntryEqualsExecutedCommand", e.out)
        [] e.ev = "Ran" ->
-            Need(ToSet(e.make) = ToSet(e.ninja), "SameStepsRunForSameRequest", <<e.goal, e.cause>>)
+            \* (symbolic-link copies aside: Ninja re-runs every consumer of a step that ran, Make goes by the
+            \*  time stamp, which for a link is that of what it points to - the tools differ, not the build files)
+            Need(ToSet(e.make) \ ToSet(e.sym) = ToSet(e.ninja) \ ToSet(e.sym), "SameStepsRunForSameRequest", <<e.goal, e.cause>>)
   /\ l' = l + 1 /\ UNCHANGED t
 TraceSpec == TraceInit /\ [][TraceNext]_tvars
 =============================================================================
